@@ -1527,4 +1527,213 @@ theorem WFP.final_ovf {env : Env} {c : Cls} {k : ClsInfo} {im : Meta} (w : WFP e
             Option.some.injEq] at hq
           simp [ovfFilter, ha, hq.1.2, hq.2]
 
+/-! ### hierarchies with hand-written parent constructors: which constructors run, and `__post_init__` -/
+
+/-- Events that are neither a constructor entry nor a `__post_init__` run. -/
+def Quiet (evs : List Ev) : Prop := evs.filterMap evCtor = [] ∧ evs.filterMap evPost = []
+
+theorem quiet_nil : Quiet [] := ⟨rfl, rfl⟩
+theorem quiet_append {a b : List Ev} (ha : Quiet a) (hb : Quiet b) : Quiet (a ++ b) := by
+  unfold Quiet at *
+  simp [List.filterMap_append, ha.1, ha.2, hb.1, hb.2]
+theorem quiet_sets (pl : Plan) : Quiet (pl.map (fun q => Ev.set q.1 q.2)) :=
+  ⟨filterMap_set_ctor pl, filterMap_set_post pl⟩
+
+theorem setAttr_trace (env : Env) (s s1 : St) (a : Name) (v : Val) (h : setAttr env s a v = (s1, none)) :
+    ∃ evs, s1.trace = s.trace ++ evs ∧ Quiet evs := by
+  by_cases hv : v = .missing
+  · subst hv
+    unfold setAttr at h
+    have : applyPrep (env.prep a) Val.missing = .missing := by simp [applyPrep_eq_missing]
+    simp [this] at h
+    exact ⟨[], by simp [← h], quiet_nil⟩
+  · have := setAttr_ok env s s1 a v h hv
+    refine ⟨[Ev.set a (applyPrep (env.prep a) v)], by rw [this], ?_⟩
+    exact ⟨by simp [evCtor], by simp [evPost]⟩
+
+theorem handBody_trace (env : Env) : ∀ (bound : List (HandParam × Val)) (s s' : St),
+    handBody env bound s = (s', none) → ∃ evs, s'.trace = s.trace ++ evs ∧ Quiet evs := by
+  intro bound
+  induction bound with
+  | nil => intro s s' h; simp [handBody] at h; exact ⟨[], by simp [h], quiet_nil⟩
+  | cons x r ih =>
+    intro s s' h
+    obtain ⟨p, v⟩ := x
+    simp only [handBody] at h
+    cases hf : applyF p.f v with
+    | error e => simp [hf] at h
+    | ok w =>
+      simp only [hf] at h
+      cases hs : setAttr env s p.name w with
+      | mk s1 o =>
+        rw [hs] at h
+        cases o with
+        | some e => simp at h
+        | none =>
+          simp only at h
+          obtain ⟨e1, h1, q1⟩ := setAttr_trace env s s1 p.name w hs
+          obtain ⟨e2, h2, q2⟩ := ih s1 s' h
+          exact ⟨e1 ++ e2, by rw [h2, h1, List.append_assoc], quiet_append q1 q2⟩
+
+/-- What the parents loop needs to know about a decorated parent, whatever its constructor. -/
+structure AnyParent (env : Env) (im : Meta) (p : Cls) : Prop where
+  info : ∃ i, firstSpecCls env.classes (mroOf env.classes p) = some i ∧ i.cdef.name = p ∧ i.«meta».isSome
+  notOwner : im.owner ≠ p
+
+theorem callParent_trace (env : Env) (im : Meta) (mroC : List Cls) (p : Cls) (pk : Kw) (s s' : St)
+    (hp : AnyParent env im p) (h : callParent env im mroC p pk s = (s', none)) :
+    ∃ evs, s'.trace = s.trace ++ Ev.ctor p :: evs ∧ Quiet evs := by
+  obtain ⟨i, hfs, hname, hmeta⟩ := hp.info
+  unfold callParent at h
+  simp only [hfs] at h
+  cases hh : i.cdef.hand with
+  | some params =>
+    simp only [hh, hname] at h
+    unfold callHand at h
+    cases hb : bindHand params [] pk with
+    | error e => simp [hb] at h
+    | ok bound =>
+      simp only [hb] at h
+      obtain ⟨evs, h1, q⟩ := handBody_trace env bound _ s' h
+      exact ⟨evs, by rw [h1]; simp [St.emit], q⟩
+  | none =>
+    simp only [hh] at h
+    cases hm : i.«meta» with
+    | none => rw [hm] at hmeta; cases hmeta
+    | some pm =>
+      simp only [hm] at h
+      cases hb : bindGenerated pm [] pk with
+      | error e => simp [hb] at h
+      | ok kwargs =>
+        simp only [hb, hname] at h
+        have hno : ¬ im.owner = p := hp.notOwner
+        simp only [hno, if_false] at h
+        have := ownLoop_ok _ _ _ _ _ _ _ _ h
+        refine ⟨(ownPlan env im mroC p kwargs im.attrs).map (fun q => Ev.set q.1 q.2), ?_, quiet_sets _⟩
+        rw [this]; simp [applyPlan, St.emit]
+
+theorem parentsLoop_trace (env : Env) (im : Meta) (mroC : List Cls) : ∀ (ps : List Cls) (kw kw' : Kw) (s s' : St),
+    (∀ p ∈ ps, isSpec env p = true → AnyParent env im p) →
+    parentsLoop env im mroC ps kw s = (kw', (s', none)) →
+    ctorCalls s'.trace = ctorCalls s.trace ++ ps.filter (isSpec env) ∧ postCalls s'.trace = postCalls s.trace := by
+  intro ps
+  induction ps with
+  | nil => intro kw kw' s s' _ h; simp only [parentsLoop] at h; cases h; simp
+  | cons p ps ih =>
+    intro kw kw' s s' hg h
+    have hg' : ∀ q ∈ ps, isSpec env q = true → AnyParent env im q := fun q hq => hg q (List.mem_cons_of_mem _ hq)
+    simp only [parentsLoop] at h
+    cases hm : metaOf env.classes p with
+    | none =>
+      simp only [hm] at h
+      have := ih kw kw' s s' hg' h
+      simpa [List.filter_cons, isSpec, hm] using this
+    | some pm =>
+      simp only [hm] at h
+      have hsp : isSpec env p = true := by simp [isSpec, hm]
+      cases hb : buildPk env.classes im mroC p pm.attrs kw [] with
+      | error e => simp [hb] at h
+      | ok r =>
+        obtain ⟨kw1, pk⟩ := r
+        simp only [hb] at h
+        cases hc : callParent env im mroC p (addKeyMissing pk pm.key) s with
+        | mk s1 o =>
+          rw [hc] at h
+          cases o with
+          | some e => simp at h
+          | none =>
+            simp only at h
+            obtain ⟨evs, h1, q⟩ := callParent_trace env im mroC p _ s s1 (hg p List.mem_cons_self hsp) hc
+            obtain ⟨i1, i2⟩ := ih kw1 kw' s1 s' hg' h
+            unfold ctorCalls postCalls at *
+            refine ⟨?_, ?_⟩
+            · rw [i1, h1]
+              simp only [List.filterMap_append, List.filterMap_cons, evCtor, q.1, List.filter_cons, hsp, if_true,
+                List.append_assoc, List.cons_append, List.nil_append, List.append_nil]
+            · rw [i2, h1]
+              simp only [List.filterMap_append, List.filterMap_cons, evPost, q.2, List.append_nil]
+
+theorem WFP.anyParent {env : Env} {c : Cls} {k : ClsInfo} {im : Meta} (w : WFP env c k im)
+    {p : Cls} (hp : p ∈ k.cdef.mro.tail) (hs : isSpec env p = true) : AnyParent env im p := by
+  unfold isSpec at hs
+  cases hpm : metaOf env.classes p with
+  | none => simp [hpm] at hs
+  | some pm =>
+    obtain ⟨i, hfi, hmi⟩ := metaOf_some hpm
+    obtain ⟨_, _, _, hhead⟩ := w.parents p hp pm hpm
+    refine ⟨⟨i, ?_, findCls_name hfi, by simp [hmi]⟩, ?_⟩
+    · rw [mro_eq_cons hhead]
+      simp [firstSpecCls, hfi, hmi]
+    · rw [w.owner]; exact fun e => w.tail_ne hp e.symm
+
+/-- Constructor entries and `__post_init__` runs of a successful construction whose own constructor is
+generated; the parents' constructors may be hand-written. -/
+theorem construct_trace_any {env : Env} {c : Cls} {k : ClsInfo} {im : Meta} (w : WFP env c k im)
+    (ht : topGenerated env c = true) {pos : List Val} {kw : Kw} {s : St}
+    (h : construct env c pos kw = (s, none)) :
+    ctorCalls s.trace = k.cdef.name :: k.cdef.mro.tail.reverse.filter (isSpec env) ∧
+    postCalls s.trace = (postOf env (mroOf env.classes c)).toList ∧
+    (∀ pc, postOf env (mroOf env.classes c) = some pc → s.trace.getLast? = some (.post pc)) := by
+  unfold construct at h
+  have hi : firstSpecCls env.classes (mroOf env.classes c) = some k := w.hinst
+  have hhand : k.cdef.hand = none := by
+    unfold topGenerated at ht
+    rw [w.hinst] at ht
+    simpa using ht
+  simp only [hi, hhand, w.hmeta] at h
+  cases hb : bindGenerated im pos kw with
+  | error e => simp [hb] at h
+  | ok kwargs =>
+    simp only [hb] at h
+    unfold initOwner at h
+    simp only at h
+    cases hp : parentsLoop env im (mroOf env.classes c) k.cdef.mro.tail.reverse kwargs
+        (St.empty.emit (.ctor k.cdef.name)) with
+    | mk kw' r =>
+      obtain ⟨s1, o⟩ := r
+      rw [hp] at h
+      cases o with
+      | some e => simp at h
+      | none =>
+        simp only at h
+        obtain ⟨c1, p1⟩ := parentsLoop_trace env im _ _ _ _ _ _
+          (fun p hp hs => w.anyParent (List.mem_reverse.1 hp) hs) hp
+        cases ho : ownLoop env im (mroOf env.classes c) k.cdef.name kw' im.attrs s1 with
+        | mk s2 o2 =>
+          rw [ho] at h
+          cases o2 with
+          | some e => simp at h
+          | none =>
+            simp only [Prod.mk.injEq, and_true] at h
+            have hs2 := ownLoop_ok _ _ _ _ _ _ _ _ ho
+            have hq := quiet_sets (ownPlan env im (mroOf env.classes c) k.cdef.name kw' im.attrs)
+            have htr : s.trace = s1.trace ++
+                (ownPlan env im (mroOf env.classes c) k.cdef.name kw' im.attrs).map (fun q => Ev.set q.1 q.2) ++
+                ovfEvs im ++ postEvs (postOf env (mroOf env.classes c)) := by
+              rw [← h, hs2]
+              unfold ovfEvs postEvs
+              cases im.ovf <;> cases postOf env (mroOf env.classes c) <;> simp [applyPlan, St.emit]
+            have hov : Quiet (ovfEvs im) := by
+              unfold ovfEvs; cases im.ovf <;> exact ⟨by simp [evCtor], by simp [evPost]⟩
+            have c0 : ctorCalls (St.empty.emit (Ev.ctor k.cdef.name)).trace = [k.cdef.name] := by
+              simp [ctorCalls, St.emit, St.empty, evCtor]
+            have p0 : postCalls (St.empty.emit (Ev.ctor k.cdef.name)).trace = [] := by
+              simp [postCalls, St.emit, St.empty, evPost]
+            rw [c0] at c1
+            rw [p0] at p1
+            refine ⟨?_, ?_, ?_⟩
+            · unfold ctorCalls at c1 ⊢
+              rw [htr]
+              simp only [List.filterMap_append, c1, hq.1, hov.1, List.append_nil]
+              unfold postEvs
+              cases postOf env (mroOf env.classes c) <;> simp [evCtor]
+            · unfold postCalls at p1 ⊢
+              rw [htr]
+              simp only [List.filterMap_append, p1, hq.2, hov.2, List.nil_append]
+              unfold postEvs
+              cases postOf env (mroOf env.classes c) <;> simp [evPost]
+            · intro pc hpc
+              rw [htr, hpc]
+              simp only [postEvs, List.getLast?_append, List.getLast?_singleton, Option.some_or]
+
 end SpecVerif.C09
